@@ -12,11 +12,17 @@ from bounded import lib as L
 from vivarium.core.store import Store
 from vivarium.library.units import units
 
-KINDS = ['accumulate', 'set', 'null', 'merge', 'nonnegative_accumulate', 'dict_value', 'user', 'default', 'units']
+KINDS = ['accumulate', 'set', 'null', 'merge', 'nonnegative_accumulate', 'dict_value', 'user', 'default', 'units', 'units',
+         'units_user']
 
 
 def user_fn(cur, upd):
     return cur * 2 + upd
+
+
+def user_units_fn(cur, upd):
+    # a user updater that computes in another (compatible) unit: the store still holds the declared unit afterwards
+    return (cur + upd).to(units.g)
 
 
 def eq(a, b):
@@ -67,8 +73,8 @@ def law(kind, cur, upd):
             else:
                 out[k].update(copy.deepcopy(v))
         return out
-    if kind == 'units':
-        return (cur + upd).to(cur.units)
+    if kind in ('units', 'units_user'):
+        return (cur + upd).to(units.mg)
     raise KeyError(kind)
 
 
@@ -91,7 +97,7 @@ def gen_value(rng, kind):
         cur = {'k1': {'v': 1}, 'k2': {'v': 2}}
         ups = [{'_add': [{'key': 'k3', 'state': {'v': 3}}]}, {'k1': {'w': 9}}, {'_delete': ['k2']}, {'k1': {'v': 5}}]
         return cur, lambda: copy.deepcopy(ups.pop(0)) if ups else {'k1': {'u': 0}}
-    if kind == 'units':
+    if kind in ('units', 'units_user'):
         return 2.0 * units.mg, lambda: rng.choice([500.0 * units.ug, 0.001 * units.g, 1.0 * units.mg])
     raise KeyError(kind)
 
@@ -109,7 +115,9 @@ def check(sd, tier):
         if kind == 'user':
             leaf['_updater'] = user_fn
         elif kind == 'units':
-            leaf['_updater'] = 'accumulate'
+            leaf['_updater'] = rng.choice(['accumulate', 'nonnegative_accumulate'])
+        elif kind == 'units_user':
+            leaf['_updater'] = user_units_fn
         elif kind != 'default':
             leaf['_updater'] = kind
         name = 'v%d' % i
@@ -119,6 +127,13 @@ def check(sd, tier):
     full_schema = {'branch': schema, 'untouched': {'_default': 42}} if nested else dict(schema, untouched={'_default': 42})
     store = Store(copy.deepcopy(full_schema))
     store.apply_defaults()
+    # a unit-bearing variable may be GIVEN its value in another compatible unit (initial state, set_value): after the next
+    # update it holds the declared unit again
+    for name, (kind, _) in kinds.items():
+        if kind in ('units', 'units_user') and rng.random() < 0.5:
+            given = rng.choice([3000.0 * units.ug, 0.004 * units.g])
+            store.get_path((('branch',) if nested else ()) + (name,)).set_value(given)
+            model[name] = given
 
     def current():
         v = store.get_value()
@@ -155,7 +170,7 @@ def check(sd, tier):
             if not eq(got[name], model[name]):
                 fails.append('variable %s (updater %s) holds %r after batch %r, the updater law gives %r'
                              % (name, kinds[name][0], got[name], update.get(name, 'not mentioned'), model[name]))
-            if kinds[name][0] == 'units' and got[name].units != units.mg:
+            if kinds[name][0] in ('units', 'units_user') and name in update and got[name].units != units.mg:
                 fails.append('variable %s holds units %s, declared mg' % (name, got[name].units))
         if store.get_value()['untouched'] != 42:
             fails.append('a variable not mentioned in the update changed')
